@@ -39,8 +39,12 @@ func c09Case(t *testing.T, id int, seed uint64, out *Out) {
 	if r.Chance(80) {
 		apps = append(apps, AppSpec{Name: "app", Key: kApp, Trusted: r.Chance(85)})
 	}
-	if r.Chance(25) {
-		apps = append(apps, AppSpec{Name: "app2", Key: kApp + 1, Trusted: r.Chance(70)})
+	if r.Chance(45) {
+		apps = append(apps, AppSpec{Name: "app2", Key: kApp + 1, Trusted: r.Chance(50)})
+		if len(apps) == 2 && r.Chance(50) {
+			// mixed trust: exactly one of the two apps is trusted
+			apps[0].Trusted = !apps[1].Trusted
+		}
 	}
 	pol := PolicySpec{
 		Root: RootSpec{Version: 1, RootKeys: []int{kRoot}, RootThreshold: 1, TargetsKeys: []int{kTargets}, TargetsThreshold: 1, Signers: []int{kRoot}, Apps: apps},
